@@ -81,6 +81,12 @@ func (v *Verifier) indexFunctions() {
 		if f.Synthetic != "" && f.Origin() == nil {
 			continue
 		}
+		if f.TypeParams().Len() > 0 && len(f.TypeArgs()) == 0 {
+			continue // uninstantiated generic body
+		}
+		if p := f.Parent(); p != nil && p.TypeParams().Len() > 0 && len(p.TypeArgs()) == 0 {
+			continue
+		}
 		k := v.funcKey(f)
 		if k != "" {
 			v.funcsByKey[k] = append(v.funcsByKey[k], f)
@@ -213,7 +219,7 @@ func (v *Verifier) VerifyFunc(fn *ssa.Function, ct *FuncContract, display string
 		touched: map[string]bool{}, escaping: map[*ssa.Alloc]bool{}, cellRef: map[*ssa.Alloc]string{}, fnCells: map[*ssa.Alloc]Val{},
 		callOrd: map[string]int{}, ghostDecl: map[string]bool{}, skip: map[string]bool{},
 		edgeCond: map[[2]*ssa.BasicBlock]string{}, outSt: map[*ssa.BasicBlock]*State{}, blockReach: map[*ssa.BasicBlock]string{},
-		paramCell: map[*ssa.Alloc]string{},
+		paramCell: map[*ssa.Alloc]string{}, paramAlloc: map[*ssa.Alloc]string{},
 	}
 	fc.typeArgs = typeArgsOf(fn)
 	defer func() {
@@ -300,6 +306,9 @@ func (fc *FuncCtx) prepare() {
 			case *ssa.Store:
 				if a, ok := x.Addr.(*ssa.Alloc); ok {
 					if p, ok := x.Val.(*ssa.Parameter); ok {
+						if b.Index == 0 && a.Comment == p.Name() {
+							fc.paramAlloc[a] = p.Name()
+						}
 						if _, isFn := p.Type().Underlying().(*types.Signature); isFn {
 							fc.paramCell[a] = p.Name()
 						}
@@ -408,7 +417,7 @@ func (o *Obligation) Solve(s *Solver) {
 	q := o.Query()
 	if o.Kind == "vacuity" {
 		// must be satisfiable; a short timeout suffices, unknown is accepted as "not refuted"
-		o.Res = s.CheckT(o.Name, q, false, minDur(s.Timeout, 5*time.Second))
+		o.Res = s.CheckT(o.Name, q, false, minDur(s.Timeout, 3*time.Second))
 		return
 	}
 	o.Res = s.Check(o.Name, q, false)
